@@ -81,6 +81,28 @@ func (p *Prog) mapOrigins(v ssa.Value, depth int, seen map[ssa.Value]bool, out m
 			if n != nil {
 				tn = n.Obj().Name()
 			}
+			// a field of a private accumulator (an unexported struct of this package whose values are never stored into
+			// another object, a global or an interface): the map is whatever the package stores into that field
+			if n != nil && !n.Obj().Exported() && p.isLocalAccumulator(n) {
+				out["nil"] = true
+				fname := fieldName(a.X.Type(), a.Field)
+				for _, fn := range p.sortedFuncs() {
+					if fn.Pkg == nil || n.Obj().Pkg() == nil || fn.Pkg.Pkg != n.Obj().Pkg() {
+						continue
+					}
+					allInstrs(fn, func(in ssa.Instruction) {
+						st, ok := in.(*ssa.Store)
+						if !ok {
+							return
+						}
+						fa, ok := st.Addr.(*ssa.FieldAddr)
+						if ok && namedOf(fa.X.Type()) != nil && namedOf(fa.X.Type()).Obj() == n.Obj() && fieldName(fa.X.Type(), fa.Field) == fname {
+							p.mapOrigins(st.Val, depth+1, seen, out)
+						}
+					})
+				}
+				return
+			}
 			out["field:"+tn+"."+fieldName(a.X.Type(), a.Field)] = true
 		case *ssa.Alloc:
 			if refs := a.Referrers(); refs != nil {
@@ -444,13 +466,8 @@ func c20MergeOrder(c *Ctx) {
 		}
 		of := findSite(f, "OldestFirst")
 		var merge *Site
-		for _, g := range withAnons(f) {
-			for _, s := range sitesOf(g) {
-				if strings.HasSuffix(s.CalleeName(), "StateDiff).Merge") {
-					ss := s
-					merge = &ss
-				}
-			}
+		if dss := p.deepSites(f, func(s Site) bool { return strings.HasSuffix(s.CalleeName(), "StateDiff).Merge") }, 2); len(dss) > 0 {
+			merge = &dss[len(dss)-1].Site
 		}
 		nf := findSite(f, "NewestFirst")
 		c.check(of != nil && merge != nil && nf == nil, "merge-order", "ChainReader."+m, p.Pos(fnPos(f)), "diffs are merged oldest-first", "state view no longer folds StateDiff.Merge over OldestFirst(): later blocks would be overridden by earlier ones")
@@ -650,10 +667,73 @@ func c20DeepCopyAndStop(c *Ctx) {
 				ok = false
 			}
 		}
-		merge := findSite(g, "Merge")
-		c.check(ok && merge != nil && dominatesInstr(merge.Instr, stop), "stop-test-every-iteration", "PreConfirmedStateAt: fold loop", p.Pos(posOf(stop, g)), "every iteration merges the entry's diff and then evaluates the stop test", "an iteration of the fold can end without evaluating `entry.Block.Number == blockNumber` (or without merging first): for a requested block with an empty diff the fold runs on and the state at that block equals the state at the tip")
+		// the merge of the iteration: here, or inside a same-package helper (on each of its paths) called here
+		var mergeOuter ssa.Instruction
+		for _, ds := range p.deepSites(g, nameMatcher("Merge"), 2) {
+			always := true
+			if len(ds.Chain) > 0 {
+				for _, r := range returnsOf(ds.Site.Instr.Parent()) {
+					if !dominatesInstr(ds.Site.Instr, r.Ret) {
+						always = false
+					}
+				}
+			}
+			if always && ds.outer().Parent() == g {
+				mergeOuter = ds.outer()
+			}
+		}
+		c.check(ok && mergeOuter != nil && dominatesInstr(mergeOuter, stop), "stop-test-every-iteration", "PreConfirmedStateAt: fold loop", p.Pos(posOf(stop, g)), "every iteration merges the entry's diff and then evaluates the stop test", "an iteration of the fold can end without evaluating `entry.Block.Number == blockNumber` (or without merging first): for a requested block with an empty diff the fold runs on and the state at that block equals the state at the tip")
 	}
 	if k == 0 {
 		c.und("stop-test-every-iteration", "PreConfirmedStateAt", p.Pos(fnPos(f)), "fold loop with a stop test not found")
 	}
+}
+
+
+// isLocalAccumulator: no value of type T / *T is stored into a field, a global, a map/slice element, or boxed into an
+// interface anywhere in T's package: such a struct lives only in locals, parameters and results of the package's functions.
+func (p *Prog) isLocalAccumulator(n *types.Named) bool {
+	if p.accCache == nil {
+		p.accCache = map[*types.TypeName]bool{}
+	}
+	if v, ok := p.accCache[n.Obj()]; ok {
+		return v
+	}
+	isT := func(t types.Type) bool {
+		if pt, ok := types.Unalias(t).(*types.Pointer); ok {
+			t = pt.Elem()
+		}
+		m := namedOf(t)
+		return m != nil && m.Obj() == n.Obj()
+	}
+	ok := true
+	for _, fn := range p.sortedFuncs() {
+		if fn.Pkg == nil || n.Obj().Pkg() == nil || fn.Pkg.Pkg != n.Obj().Pkg() {
+			continue
+		}
+		allInstrs(fn, func(in ssa.Instruction) {
+			switch x := in.(type) {
+			case *ssa.Store:
+				if isT(x.Val.Type()) {
+					if _, local := x.Addr.(*ssa.Alloc); !local {
+						ok = false
+					}
+				}
+			case *ssa.MakeInterface:
+				if isT(x.X.Type()) {
+					ok = false
+				}
+			case *ssa.MapUpdate:
+				if isT(x.Value.Type()) {
+					ok = false
+				}
+			case *ssa.Send:
+				if isT(x.X.Type()) {
+					ok = false
+				}
+			}
+		})
+	}
+	p.accCache[n.Obj()] = ok
+	return ok
 }
